@@ -12,7 +12,8 @@ CONSTANTS
   DSeqs = {1, 11, 111, 1111}
   GSeqs = {1, 11, 111, 1111}
   OSeqs = {1, 11, 111, 1111}
-  MaxGroupsD = 12
+  MaxGroupsD = 16
+  MaxGroupsG = 12
 INIT Init
 NEXT Next
 INVARIANTS TypeOK InvPlacement InvSandbox InvLimits InvIngress InvEgress InvIngressOther InvEgressOther InvPositive InvComplete InvTornDown
